@@ -50,6 +50,8 @@ def default_params():
         gets="early",               # deferred API: when get_*() are requested: early | late | tape | after (closed)
         third=None,                 # None | "before" | "after": a raw third client claims the nameplate
         hs_fail=[0, 0],             # budget of reconnections whose WebSocket negotiation fails
+        gets_lag=False,             # Deferred API: get_message() lags behind the arrivals (see lag_ok)
+        w_due=None,                 # scheduling weight of eventual-queue turns (default w_progress)
         w_s2c=None,                 # [w0, w1] scheduling weight of server->client delivery per side (default w_progress)
         wl_cb="wc",                 # what the when_wordlist_is_available() callback does: wc | close | send
         get_in_close_cb=False,      # Deferred API: every get_*() is requested again from the callback of close()
@@ -385,6 +387,15 @@ def _run(P, rec, W, tape, on_step, setup, at_stable, adversary=None, on_idle=Non
             return c if not sfx else c + sfx
         return P["codes"][i]
 
+    def lag_ok(i):
+        """a reader that lags behind: get_message() is called only when that leaves at most one request waiting
+        beyond the application messages already delivered to this side (so reads find buffered messages, and a
+        second, pipelined read waits for the next arrival)"""
+        my_side = ws[i]._boss._side
+        n_del = len({m.get("phase") for (j, n_, m, st_) in rec.delivered
+                     if j == i and m.get("type") == "message" and m.get("side") != my_side and str(m.get("phase")).isdigit()})
+        return len(rec.gets[i]["msg"]) <= n_del and n_del > 0
+
     def intent_enabled(it):
         k = it[0]
         if k in ("setcode", "alloc", "fromA", "input"):
@@ -408,6 +419,8 @@ def _run(P, rec, W, tape, on_step, setup, at_stable, adversary=None, on_idle=Non
                 return False
             return True
         if k == "get":
+            if P.get("gets_lag") and it[2] == "msg":
+                return lag_ok(it[1])
             return True
         if k == "xop":
             if it[2] in ("refresh", "npc", "wc", "np_again", "words_again", "wl"):
@@ -583,6 +596,9 @@ def _run(P, rec, W, tape, on_step, setup, at_stable, adversary=None, on_idle=Non
                     choices.append((P["w_drop"], e))
             elif e[0] == "mb.hsfail":
                 choices.append((P["w_drop"] + 2, e))
+            elif e[0] == "clock.due" and P.get("w_due"):
+                # a busy reactor: eventual-send turns (callLater(0)) run late relative to network events
+                choices.append((P["w_due"], e))
             elif e[0] == "mb.s2c" and P.get("w_s2c") and e[1].svc in W.services[:2]:
                 # a slow reader: its inbound queue builds up (and is then duplicated / reordered as a whole)
                 choices.append((P["w_s2c"][W.services.index(e[1].svc)], e))
@@ -594,6 +610,8 @@ def _run(P, rec, W, tape, on_step, setup, at_stable, adversary=None, on_idle=Non
         if mode == "deferred" and P["gets"] == "tape":
             for i in range(2):
                 for g in gets_pending[i]:
+                    if g == "msg" and P.get("gets_lag") and not lag_ok(i):
+                        continue
                     choices.append((2, ("app", ("get", i, g))))
         choices.extend(adversary_choices())
         if adversary is not None:
@@ -610,11 +628,12 @@ def _run(P, rec, W, tape, on_step, setup, at_stable, adversary=None, on_idle=Non
         try:
             if e[0] == "app":
                 it = e[1]
-                if it[0] == "get":
+                if it[0] == "get" and len(it) == 3:
+                    # one of the six base get_*() requests of the "tape" mode
                     gets_pending[it[1]].remove(it[2])
                     _request_get(rec, it[1], it[2])
                 else:
-                    do_intent(it)
+                    do_intent(it)       # (extra pipelined get_message() requests are ordinary intents)
             elif e[0] == "adv.custom":
                 e[1](tape)
             elif e[0].startswith("adv."):
